@@ -694,11 +694,25 @@ impl Ctx {
                     let names: Vec<&str> = op["signers"].as_array().unwrap().iter().map(|x| x.as_str().unwrap()).collect();
                     first_signer = names[0].to_string();
                     let sks: Vec<&in_toto::crypto::PrivateKey> = names.iter().map(|n| self.km.sk(n)).collect();
-                    let mb = if c == "new" {
-                        Metablock::new(base.clone(), &sks).unwrap()
-                    } else {
-                        MetablockBuilder::from_metadata(base.clone().into_trait()).sign(&sks).unwrap().build()
+                    let make = || {
+                        if c == "new" {
+                            Metablock::new(base.clone(), &sks).unwrap()
+                        } else {
+                            MetablockBuilder::from_metadata(base.clone().into_trait()).sign(&sks).unwrap().build()
+                        }
                     };
+                    let mut mb = make();
+                    // encodings of variable length (ECDSA's DER pair of integers): every sixteenth scenario is signed
+                    // again until an unusually SHORT encoding (below the common 70..72 bytes) turns up
+                    let ecdsa_first = matches!(sks[0].public().scheme(), in_toto::crypto::SignatureScheme::EcdsaP256Sha256);
+                    if ecdsa_first && scn["i"].as_u64().unwrap_or(1) % 16 == 0 {
+                        for _ in 0..5000 {
+                            if mb.signatures.iter().any(|s| s.value().as_bytes().len() < 70) {
+                                break;
+                            }
+                            mb = make();
+                        }
+                    }
                     // the builder keeps one signature per key; the constructor one per listed key
                     let distinct: std::collections::BTreeSet<&str> = names.iter().cloned().collect();
                     let want = if c == "new" { names.len() } else { distinct.len() };
